@@ -261,6 +261,9 @@ def main(pid, tier, repo=None):
     rule_region_reset(ctx)
     rule_ecshift(ctx)
     rule_epf_pad(ctx)
+    rule_blend_cache_region(ctx)
+    from . import fixguards
+    fixguards.run(ctx, pid)
     ctx.not_decided("the padding amounts for Gabor / upsampling / chroma upsampling / LF smoothing and the group selection (numeric)")
     return ctx.finish(
         "Two structural necessary conditions. (1) Cache invalidation, for 'requesting regions in any sequence never changes what a later "
@@ -428,3 +431,73 @@ def rule_epf_pad(ctx):
             ctx.bad(rid, "pad-below-reach:iters%d" % iters, "with %d EPF iteration(s) apply_epf runs steps %s, which read up to %d samples beyond the "
                     "region, but pad_color_region pads the requested region by only %d: the outermost rows/columns of a cropped render are "
                     "filtered from mirrored samples and differ from the full render" % (iters, sorted(steps), need, got), fn=pad_fn)
+
+
+def rule_blend_cache_region(ctx):
+    """the cached blended image of a frame is only handed out for the region it was blended for"""
+    from ..intervals import value_class
+    rid = "R-BLEND-CACHE-REGION"
+    ctx.rule(rid, "RenderedImage::blend(region) caches the blended frame in its render handle.  composite() pads the caller's region with "
+                  "the consuming frame's own filter / upsampling margins before asking its references, so different consumers ask for "
+                  "different regions of one reference.  The cache-hit exit (state Blended -> Ok(clone)) must therefore consult the "
+                  "requested region: on the paths from the function entry to that exit the region value has to take part in a call "
+                  "or comparison (contains / == / intersection ..) other than its own defaulting.  Otherwise a later, larger request gets "
+                  "an image that does not cover it (out-of-range subgrid in blend(), or stale margins)")
+    f = ctx.prog.crate("jxl_render").fn("jxl_render::image::RenderedImage::<S>::blend")
+    if f is None:
+        ctx.anchor_missing(rid, "jxl_render::image::RenderedImage::<S>::blend")
+        return
+    ctx.seen(f)
+    region_arg = next((i for i in range(1, f.argc + 1) if "region::Region" in f.local_ty(i)), None)
+    if region_arg is None:
+        ctx.ok(rid, "no-region-parameter", "blend() no longer takes a region: nothing to cache per region", fn=f)
+        return
+    # the cache-hit exit: Ok(Arc::clone(..)) built right after a switch on the render state selected Blended
+    hit = None
+    for b, t in f.calls():
+        c = callee(t)
+        if c and c.get("res", c["fn"]).endswith("Arc<T, A> as core::clone::Clone>::clone") and t[4] is not None:
+            nb = t[4]
+            if any(st[0] == "=" and st[1] == [0] and st[2][0] == "agg" and st[2][1][0] == "adt" and st[2][1][2] == "Ok" for st in f.stmts(nb)):
+                hit = nb
+    if hit is None:
+        ctx.ok(rid, "no-cache-hit-exit", "blend() has no exit that returns a cached image", fn=f)
+        return
+    # region values: the parameter, its defaulted form, and their copies
+    reg = set(value_class(f, region_arg))
+    defaulting = set()
+    for b, t in f.calls():
+        if any(op_local(a) in reg for a in t[2]):
+            c = callee(t)
+            if c and c["fn"].split("::")[-1] in ("unwrap_or_else", "unwrap_or", "unwrap_or_default", "map", "clone") and t[3] and len(t[3]) == 1:
+                defaulting.add(b)
+                reg |= set(value_class(f, t[3][0]))
+    on_path = {b for b in f.reachable(0) if hit in f.reachable(b)}
+    consulted = []
+    for b in on_path:
+        if b in defaulting:
+            continue
+        t = f.term(b)
+        if t[0] == "call":
+            ls = [op_local(a) for a in t[2]]
+            # by-reference use
+            refs = set()
+            for st in f.stmts(b):
+                if st[0] == "=" and st[2][0] == "ref" and st[2][2][0] in reg and len(st[1]) == 1:
+                    refs.add(st[1][0])
+            if any(x in reg or x in refs for x in ls):
+                consulted.append(b)
+        for st in f.stmts(b):
+            if st[0] == "=" and st[2][0] == "bin" and (op_local(st[2][2]) in reg or op_local(st[2][3]) in reg):
+                consulted.append(b)
+            if st[0] == "=" and st[2][0] == "use":
+                p = op_place(st[2][1])
+                if p is not None and p[0] in reg and len(p) > 1:
+                    consulted.append(b)         # a field of the region is read
+    if consulted:
+        ctx.ok(rid, "cache-hit-consults-region", "the requested region is used before the cached image is returned", nontrivial=True, fn=f)
+    else:
+        ctx.bad(rid, "cache-hit-ignores-region", "RenderedImage::blend returns the cached blended image without looking at the requested "
+                "region: a frame first blended for a small region (a consumer without filter margins, or a crop) is later handed to a "
+                "consumer that needs a larger one, and blend() takes an out-of-range subgrid of it (panic) or composes stale margins",
+                fn=f, pos=f.term_pos(hit))
